@@ -252,3 +252,12 @@ var effectTable = []effectRow{
 	{"hotline.CalcTotalSize", "fs.list"},
 	{"hotline.CalcItemCount", "fs.list"},
 }
+
+// mutatingClass: effect classes that change server state or reach other users (as opposed to reads)
+func mutatingClass(c string) bool {
+	switch c {
+	case "account.read", "news.read", "board.read", "fs.list", "clientinfo.read", "fs.open":
+		return false
+	}
+	return true
+}
